@@ -257,6 +257,13 @@ def skip_documents(c):
             continue
         cands.append(kd)
     required = [kd for kd in el["children"] if kd["required"]]
+    if c.get("next", "-") != "-":
+        nk = next(kd for kd in el["children"] if kd["tag"] == c["next"])
+        if not docgen.in_version(nk, ver) or nk["tag"] == "A2ML":
+            return None, None, False
+        cands = [nk]
+        required = [kd for kd in required if kd["tag"] != nk["tag"]]
+        # the payload goes directly in front of the chosen sub-element
     chosen = []
     want = max(c["nkids"], len(required))
     for kd in required + cands:
@@ -292,6 +299,8 @@ def skip_documents(c):
                         groups.append(cur)
                     if with_payload:
                         at = min(c["at"], len(groups))
+                        if c.get("next", "-") != "-":
+                            at = next((gi for gi, g in enumerate(groups) if c["next"] in [t for t in g[0] if t != "  "][:2]), at)
                         groups = groups[:at] + [[["  "] + l for l in PAYLOADS[c["payload"]]]] + groups[at:]
                     return head + [l for g in groups for l in g]
             return default
